@@ -100,7 +100,9 @@ PropMutate     == [][kind' = "mutate" => par' = val /\ IsMutation(cls, mk', val,
 (* ---- generation: the table once, one case per explored state ---- *)
 ASSUME PrintT(<<"TABLE", ToJson(ClassTable)>>)
 MotRec == [c \in Classes |-> [move |-> MotGroups(c, "move"), flat |-> MotGroups(c, "flat"),
-                              always |-> {g \in GroupsOf(c) : <<c, g>> \in SpatialDefault}]]
+                              always |-> {g \in GroupsOf(c) : <<c, g>> \in SpatialDefault},
+                              blocked |-> BlockGroups(c),
+                              has |-> {m \in {"move", "flat"} : c \in DOMAIN (IF m = "move" THEN Moved ELSE Flat)}]]
 ASSUME PrintT(<<"MOTION", ToJson(MotRec)>>)
 SetRec == [c \in Classes |-> [g \in GroupsOf(c) |->
              {<<pr[1], pr[2], SetName(c, g, pr[1], pr[2])>> : pr \in SetPairs(c, g)}]]
